@@ -616,7 +616,7 @@ Qed.
 Lemma nth_app_false (l : list bool) n : (n < length l)%nat -> nth n (l ++ [false]) false = nth n l false.
 Proof. intros H. apply app_nth1. assumption. Qed.
 
-Lemma FInv_call s c k ho hr : FInv s -> FInv (call false s c k ho hr).
+Lemma FInv_call s c k ho hr pn : FInv s -> FInv (call false s c k ho hr pn).
 Proof.
   intros HI. unfold call. destruct (known_caller s c) eqn:Ek; [assumption|].
   pose proof (known_caller_res s c Ek) as Hres.
@@ -678,14 +678,37 @@ Proof.
           + exists (mkInfl k (next_id s) (length (cells s)) [c] None). split; [apply in_app_iff; right; left; reflexivity|].
             left; reflexivity.
           + destruct (H9 c' Hp) as (j & Hj & Hw). exists j. split; [apply in_app_iff; auto|assumption]. }
+      destruct pn; [|exact H0].
       apply (FInv_poll_init s0 t H0); auto.
       unfold s0; cbn [tasks]. apply in_app_iff. right. left. reflexivity.
+Qed.
+
+Lemma find_task_In t l x : find_task t l = Some x -> In x l.
+Proof.
+  induction l as [|y l IH]; simpl; [discriminate|].
+  destruct (N.eqb t (tid y)); intros H; [inversion H; left; reflexivity|right; auto].
+Qed.
+
+Lemma FInv_kill_task s t : FInv s -> In t (tasks s) -> FInv (kill_task s t).
+Proof.
+  intros HI Ht. unfold kill_task. destruct (tst t); try assumption;
+    apply (FInv_take_by_id_done s t (RErr 1)); auto; discriminate.
+Qed.
+
+Lemma FInv_kill_all s : FInv s -> FInv (kill_all s).
+Proof.
+  unfold kill_all. generalize (tasks s) at 1. intros l. revert s.
+  induction l as [|t l IH]; intros s HI; simpl; [assumption|].
+  apply IH. destruct (find_task (tid t) (tasks s)) as [x|] eqn:E; [|assumption].
+  apply FInv_kill_task; [assumption|]. eapply find_task_In; eauto.
 Qed.
 
 Lemma FInv_fstep s a : FInv s -> FInv (fstep false s a).
 Proof.
   intros HI. destruct a; cbn [fstep].
   - apply FInv_call; assumption.
+  - apply FInv_call; assumption.
+  - apply FInv_kill_all; assumption.
   - destruct (find_opt_task c (tasks s)) as [x|] eqn:E; [|assumption].
     apply FInv_poll_opt; [assumption|]. eapply find_opt_task_In; eauto.
   - destruct (find_req_task f (tasks s)) as [x|] eqn:E; [|assumption].
@@ -798,6 +821,15 @@ Proof.
     destruct (find_infl k0 (infls s)); [assumption|].
     unfold poll_init; cbn [tst]. destruct has_opt; [assumption|].
     rewrite try_set_required_mem. assumption.
+  - unfold call. destruct (known_caller s c); [assumption|].
+    destruct (mlookup k0 (mem s)) eqn:E0; [assumption|].
+    destruct (find_infl k0 (infls s)); assumption.
+  - (* kill_all never touches memory *)
+    unfold kill_all. generalize (tasks s) at 1. intros l. revert Hm. generalize s. clear.
+    induction l as [|t l IH]; intros s Hm; simpl; [assumption|].
+    apply IH. destruct (find_task (tid t) (tasks s)) as [x|]; [|assumption].
+    unfold kill_task. destruct (tst x); try assumption;
+      (etransitivity; [exact (take_by_id_mem s x (RErr 1) k)|exact Hm]).
   - destruct (find_opt_task c (tasks s)) as [x|] eqn:E; [|assumption].
     pose proof (find_opt_task_In _ _ _ E) as Hx.
     unfold poll_opt. destruct (tst x) as [ho rq|rq|g|] eqn:Et; try assumption.
